@@ -137,7 +137,7 @@ def cfg_model(ctx):
     return "SPECIFICATION Spec\nCONSTANTS\n Cfgs <- MCCfgs\nCHECK_DEADLOCK FALSE\n" + \
         "".join("INVARIANT %s\n" % i for i in REQ_INVS + pre)
 
-IMPL_INVS = ["ImplDipoleSum", "ImplFullTermsDipoleSum", "ImplFullTermsGammaLimit", "ImplFullTermsCommensurateNoOp",
+IMPL_INVS = ["ImplHomogeneousLadder", "ImplDipoleSum", "ImplFullTermsDipoleSum", "ImplFullTermsGammaLimit", "ImplFullTermsCommensurateNoOp",
              "ImplFullTermsZeroBornNoOp", "ImplBornExact", "ImplBornInvariant", "ImplBornASR", "ImplEpsInvariant", "ImplExactProjection",
              "ImplGammaLimit", "ImplHomogeneous", "ImplSymmetric", "ImplRoutesAgree", "ImplCommensurateNoOp",
              "ImplZeroBornNoOp"]
@@ -173,6 +173,7 @@ ROUTES = ("qpoints", "dmrun")
 
 
 FULLTERMS_CFGS = None      # ids of the configurations on which the full-terms object is exercised (None: all)
+LADDER_CFGS = None         # ids of the configurations on which the ladder of lengths of n is run (None: all)
 
 
 def routes_of(method, layout, cid=None):
@@ -197,8 +198,10 @@ def run(ctx):
                 "call route) evaluated on the real code; configurations = polar catalogue crystals x supercell "
                 "matrices x random integer raw Born/dielectric tensors (symmetrised exactly in TLA+)")
     cfgs = make_cfgs(ctx)
-    global FULLTERMS_CFGS
+    global FULLTERMS_CFGS, LADDER_CFGS
     FULLTERMS_CFGS = set(c["id"] for c in cfgs[:2]) if ctx.quick else None
+    LADDER_CFGS = set(c["id"] for c in cfgs if c["mode"] == "random" and c["entry"] in ("nacl", "wz", "tric")) \
+        if ctx.quick else None
     mc = "---- MODULE MC_NAC ----\nEXTENDS NAC\nMCCfgs == {\n%s\n}\n====\n" % ",\n".join(cfg_tla(c) for c in cfgs)
     res = ctx.tlc("MC_NAC", cfg_text=cfg_model(ctx), extra_files={"MC_NAC.tla": mc}, requirement=False,
                   dump=True, keep=True, coverage=not ctx.quick, extra_args=("-continue",), workers=4)
@@ -379,7 +382,40 @@ def replay_cfg(ctx, c, case, spec, margins, fname):
                 f7, o7 = frac_tensor(ctx, K7)
                 runs.append(dict(method=method, layout=layout, route=route, lam=lam, K=f1, Klam=f7,
                                  exact=bool(o1 and o7 and imag < 1e-9)))
-        ev["gam"].append(dict(n=n_u, runs=runs))
+        lad = []
+        if (LADDER_CFGS is None or c["id"] in LADDER_CFGS) and st is spec["gamma"][0]:
+            tol = q_tolerance()
+            rec = np.linalg.inv(np.array(case.ph0.primitive.cell))
+            unit = n_p / np.linalg.norm(rec @ n_p)
+            for ln in LADDER + (3 * tol,):
+                for method in METHODS:
+                    ph = objs[(method, "full")]
+                    for route in ROUTES:
+                        try:
+                            dl = case.nac_dm(ph, gam0, route, direction=unit * ln)
+                        except Exception as e:
+                            ctx.violation("nac:gamma-raises", "zone-centre query raised %r" % e,
+                                          dict(cfg=c, n=n_u, length=ln, method=method, route=route))
+                            continue
+                        ctx.count(("gamma-ladder", c["id"], tuple(n_u), method, route, ln))
+                        el = np.abs(dl - d0 - exp).max() / scale0
+                        margins["gamma"] = max(margins["gamma"], el if np.isfinite(el) else 1e300)
+                        if not (el <= TOL["gamma"]):
+                            ctx.violation("nac:replay-gamma-length:%s" % method,
+                                          "D(Gamma; n) depends on the length of n (|n| = %g 1/Angstrom)" % ln,
+                                          dict(cfg=c, n_unit=n_u, length=ln, method=method, route=route, rel_err=float(el),
+                                               tolerance_constant=tol))
+                        npa = len(at)
+                        Kl = np.zeros((npa, npa, 3, 3))
+                        imag = 0.0
+                        for p in range(npa):
+                            for pp in range(npa):
+                                Kl[p, pp], i1 = case.k_lattice(dl - d0, p, pp)
+                                imag = max(imag, i1)
+                        fl, ol = frac_tensor(ctx, Kl)
+                        lad.append(dict(length="%.0e" % ln, method=method, route=route, K=fl,
+                                        exact=bool(ol and imag < 1e-9)))
+        ev["gam"].append(dict(n=n_u, runs=runs, ladder=lad))
         if len(ctx.samples) < 2:
             ctx.sample(dict(kind="gamma", entry=c["entry"], S=c["S"], n_unit=n_u, unit_system=fname,
                             K_spec=dict(P01=st["K"]["P"][at[0] - 1][at[-1] - 1], c1=st["K"]["c1"], c2=st["K"]["c2"])))
@@ -541,7 +577,8 @@ def event_tla(e):
     def runs_tla(rs):
         return "{" + ", ".join(to_tla(r) for r in rs) + "}"
 
-    gam = "{" + ", ".join("[n |-> %s, runs |-> %s]" % (to_tla(o["n"]), runs_tla(o["runs"])) for o in e["gam"]) + "}"
+    gam = "{" + ", ".join("[n |-> %s, runs |-> %s, ladder |-> %s]" % (to_tla(o["n"]), runs_tla(o["runs"]),
+                                                                       runs_tla(o["ladder"])) for o in e["gam"]) + "}"
     comm = "{" + ", ".join("[m |-> %s, runs |-> %s]" % (to_tla(o["m"]), runs_tla(o["runs"])) for o in e["comm"]) + "}"
     gen = "{" + ", ".join("[x |-> %s, runs |-> %s, ew |-> %s]" % (to_tla(o["x"]), runs_tla(o["runs"]),
                                                                   runs_tla(o["ew"])) for o in e["gen"]) + "}"
@@ -556,14 +593,29 @@ CONSTANTS
 CHECK_DEADLOCK FALSE
 INVARIANT ReqSwitch
 INVARIANT ReqDirectionOnlyAtGamma
+INVARIANT ReqTinyQCorrected
 INVARIANT ImplSwitch
 INVARIANT ConformsSwitch
 INVARIANT ObservedComplete
 """
 
 
+LADDER = (1e2, 7.0, 1.0, 1e-1, 1e-2, 3e-3, 1e-3, 1e-4)       # Cartesian lengths of the direction, 1/Angstrom
+
+
+def q_tolerance():
+    from phonopy.harmonic.dynamical_matrix import DynamicalMatrixNAC
+    return float(DynamicalMatrixNAC.Q_DIRECTION_TOLERANCE)
+
+
 def switch_table(ctx, cases):
-    """NACSwitch.tla: which correction is applied for which (q, direction) on which route."""
+    """NACSwitch.tla: which correction is applied for which (q, direction) on which route, with the LENGTH of the
+    direction (a ladder from 1e2 down to 3 x Q_DIRECTION_TOLERANCE, and one rung below the tolerance) and of q
+    (zero / tiny / finite) as dimensions."""
+    from harness.c08_nac import quiet
+    tol = q_tolerance()
+    ctx.extra["Q_DIRECTION_TOLERANCE"] = tol
+    ladder = LADDER + (3 * tol,)
     observed = []
     picked = [t for t in cases if t[0]["mode"] == "random" and len(t[2]["gamma"]) >= 2][: (2 if ctx.quick else 5)]
     for c, case, spec in picked:
@@ -574,97 +626,127 @@ def switch_table(ctx, cases):
         k2 = case.k_cart_expected(g2["K"])
         if np.abs(k1 - k2).max() < 1e-6 * max(np.abs(k1).max(), 1e-300):
             continue
+        rec = np.linalg.inv(np.array(case.ph0.primitive.cell))
+        len1, len2 = np.linalg.norm(rec @ n1), np.linalg.norm(rec @ n2)
+        u1, u2 = n1 / len1, n2 / len2                      # reduced coordinates of unit Cartesian length
         qg = case.to_prim_red(np.array(spec["generic"][0]["n"], float) / c["pden"])
         zero = np.zeros(3)
+        rsize = max(np.linalg.norm(v) for v in np.array(case.ph0.supercell.cell))
         for method in METHODS:
             ph = case.nac_phonopy(method, "full")
+            nsc = case.nac_scale(ph.dynamical_matrix.born, ph.dynamical_matrix.dielectric_constant)
+
+            def add(route, qlen, dirn, dlen, scale, outcome):
+                observed.append(dict(route=route, method=method, qlen=qlen, dir=dirn, dlen=dlen, scale=scale,
+                                     outcome=outcome, cfg=c["id"]))
             for route in ("dmrun", "solver"):
                 r = "qpoints" if route == "solver" else "dmrun"
-                for qz, q in ((True, zero), (False, qg)):
-                    dpl = case.plain_dm(q)
-                    sc = max(np.abs(dpl).max(), case.nac_scale(ph.dynamical_matrix.born,
-                                                               ph.dynamical_matrix.dielectric_constant))
-                    try:
-                        dn = case.nac_dm(ph, q, r, None)
-                        da = case.nac_dm(ph, q, r, n1)
-                        db = case.nac_dm(ph, q, r, n2)
-                    except Exception as e:
-                        ctx.violation("nacswitch:raises", "query raised %r" % e,
-                                      dict(cfg=c, q=q, method=method, route=route))
-                        for dd_ in ("none", "given"):
-                            observed.append(dict(route=route, method=method, qZero=qz, dir=dd_, outcome="other",
-                                                 cfg=c["id"]))
-                        continue
-
-                    def classify(d, kexp, other):
-                        if np.abs(d - dpl).max() <= 1e-11 * sc:
-                            return "plain"
-                        if qz:
-                            return "Kdir" if np.abs(d - dpl - kexp).max() <= 1e-10 * sc else "other"
-                        if np.abs(d - other).max() > 1e-11 * sc:
-                            return "Kdir"        # depends on the direction
-                        return "Kq"
-                    observed.append(dict(route=route, method=method, qZero=qz, dir="none",
-                                         outcome=classify(dn, None, dn) if not qz else
-                                         ("plain" if np.abs(dn - dpl).max() <= 1e-11 * sc else "other"),
-                                         cfg=c["id"]))
-                    oa = classify(da, k1, db)
-                    ob_ = classify(db, k2, da)
-                    if not qz and oa == "Kq" and np.abs(da - dn).max() > 1e-11 * sc:
-                        oa = "other"
-                    observed.append(dict(route=route, method=method, qZero=qz, dir="given",
-                                         outcome=oa if oa == ob_ else "other", cfg=c["id"]))
-                    ctx.count(("switch", c["id"], method, route, qz))
-            # band structure through the zone centre: frequencies only
-            path = np.array([0.2 * n1 / max(np.abs(n1).max(), 1), 0.1 * n1 / max(np.abs(n1).max(), 1), zero])
-            from harness.c08_nac import quiet
-            try:
-                with quiet():
-                    ph.run_band_structure([path])
-                    fr = np.array(ph.get_band_structure_dict()["frequencies"][0])
-            except Exception as e:
-                ctx.violation("nacswitch:raises", "band structure through the zone centre raised %r" % e,
-                              dict(cfg=c, path=path, method=method))
-                for qz in (True, False):
-                    observed.append(dict(route="band", method=method, qZero=qz, dir="given", outcome="other",
-                                         cfg=c["id"]))
-                continue
+                try:
+                    # ---- zone centre -------------------------------------------------------------------
+                    dpl = case.plain_dm(zero)
+                    sc = max(np.abs(dpl).max(), nsc)
+                    dn = case.nac_dm(ph, zero, r, None)
+                    add(route, "zero", "none", "above", "-", "plain" if np.abs(dn - dpl).max() <= 1e-11 * sc else "other")
+                    for ln in ladder:                     # direction of Cartesian length ln, two different directions
+                        da = case.nac_dm(ph, zero, r, u1 * ln)
+                        db = case.nac_dm(ph, zero, r, u2 * ln)
+                        ea, eb = np.abs(da - dpl - k1).max() / sc, np.abs(db - dpl - k2).max() / sc
+                        if not np.isfinite([ea, eb]).all():
+                            out = "other"
+                        elif ea <= 1e-10 and eb <= 1e-10:
+                            out = "Kdir"
+                        elif max(np.abs(da - dpl).max(), np.abs(db - dpl).max()) <= 1e-11 * sc:
+                            out = "plain"
+                        else:
+                            out = "other"
+                        add(route, "zero", "given", "above", "%.0e" % ln, out)
+                        ctx.count(("switch-ladder", c["id"], method, route, ln))
+                    if route == "dmrun":                  # a direction shorter than the tolerance is no direction
+                        ds = case.nac_dm(ph, zero, r, u1 * 0.3 * tol)
+                        add(route, "zero", "given", "below", "0.3tol",
+                            "plain" if np.abs(ds - dpl).max() <= 1e-11 * sc else
+                            ("Kdir" if np.abs(ds - dpl - k1).max() <= 1e-10 * sc else "other"))
+                    # ---- a tiny q itself (no direction, and a direction that must be ignored) --------------
+                    for ql in (3 * tol, 1e-4, 1e-3):
+                        q = u1 * ql
+                        dpl_q = case.plain_dm(q)
+                        dq = case.nac_dm(ph, q, r, None)
+                        dq2 = case.nac_dm(ph, q, r, u2 * 1.0)
+                        # for |q| -> 0 along n1 the correction is the analytic term K(n1) up to O(|q| R)
+                        rel = np.abs(dq - dpl_q - k1).max() / max(np.abs(k1).max(), 1e-300)
+                        if np.abs(dq - dpl_q).max() <= 1e-11 * sc:
+                            out = "plain"
+                        elif rel <= 1e-6 + 10 * (2 * np.pi * ql * rsize):
+                            out = "Kq"
+                        else:
+                            out = "other"
+                        add(route, "tiny", "none", "above", "%.0e" % ql, out)
+                        out2 = out if np.abs(dq2 - dq).max() <= 1e-11 * sc else "Kdir"
+                        add(route, "tiny", "given", "above", "%.0e" % ql, out2)
+                        ctx.count(("switch-tinyq", c["id"], method, route, ql))
+                    # ---- a generic q ------------------------------------------------------------------------
+                    dpl_g = case.plain_dm(qg)
+                    scg = max(np.abs(dpl_g).max(), nsc)
+                    dn = case.nac_dm(ph, qg, r, None)
+                    add(route, "finite", "none", "above", "-", "plain" if np.abs(dn - dpl_g).max() <= 1e-11 * scg else "Kq")
+                    for ln in (1e2, 1.0, 3 * tol):
+                        da = case.nac_dm(ph, qg, r, u1 * ln)
+                        db = case.nac_dm(ph, qg, r, u2 * ln)
+                        if max(np.abs(da - dn).max(), np.abs(db - dn).max()) > 1e-11 * scg:
+                            out = "Kdir"                  # depends on the direction
+                        else:
+                            out = "plain" if np.abs(dn - dpl_g).max() <= 1e-11 * scg else "Kq"
+                        add(route, "finite", "given", "above", "%.0e" % ln, out)
+                    ctx.count(("switch", c["id"], method, route))
+                except Exception as e:
+                    ctx.violation("nacswitch:raises", "query raised %r" % e, dict(cfg=c, method=method, route=route))
+                    add(route, "zero", "given", "above", "raised", "other")
+                    continue
+            # ---- band structure through the zone centre: frequencies only; path lengths 0.2 and 2e-3 (1/Angstrom) -----
             fac = ph.unit_conversion_factor
-
-            fr = np.sign(fr) * (fr / fac) ** 2          # back to eigenvalues (acoustic modes at 0 are ill-conditioned as frequencies)
-
-            def freqs(d):
-                return np.linalg.eigvalsh(d)
-            for qz, idx in ((True, 2), (False, 0)):
-                q = path[idx]
-                dpl = case.plain_dm(q)
-                cands = dict(plain=freqs(dpl))
-                if qz:
-                    cands["Kdir"] = freqs(dpl + k1)
-                else:
-                    cands["Kq"] = freqs(case.nac_dm(ph, q, "dmrun", None))
-                tolf = 1e-9 * np.abs(fr[idx]).max()
-                hits = [k for k, v in cands.items() if np.abs(v - fr[idx]).max() <= tolf]
-                distinct = all(np.abs(cands[a] - cands[b]).max() > 100 * tolf
-                               for a in cands for b in cands if a < b)
-                if not distinct:
-                    raise tlcmod.MachineryError("switch table: candidate spectra coincide (vacuous cell)")
-                observed.append(dict(route="band", method=method, qZero=qz, dir="given",
-                                     outcome=hits[0] if len(hits) == 1 else "other", cfg=c["id"]))
-                ctx.count(("switch", c["id"], method, "band", qz))
+            for plen, tag in ((0.2, "finite"), (2e-3, "tiny")):
+                path = np.array([u1 * plen, u1 * plen / 2, zero])
+                try:
+                    with quiet():
+                        ph.run_band_structure([path])
+                        fr = np.array(ph.get_band_structure_dict()["frequencies"][0])
+                except Exception as e:
+                    ctx.violation("nacswitch:raises", "band structure through the zone centre raised %r" % e,
+                                  dict(cfg=c, path=path, method=method))
+                    add("band", "zero", "given", "above", "raised", "other")
+                    continue
+                fr = np.sign(fr) * (fr / fac) ** 2          # back to eigenvalues
+                for qlen, idx in (("zero", 2), (tag, 0)):
+                    q = path[idx]
+                    dpl = case.plain_dm(q)
+                    cands = dict(plain=np.linalg.eigvalsh(dpl))
+                    if qlen == "zero":
+                        cands["Kdir"] = np.linalg.eigvalsh(dpl + k1)
+                    else:
+                        cands["Kq"] = np.linalg.eigvalsh(case.nac_dm(ph, q, "qpoints", None))
+                    tolf = 1e-9 * np.abs(fr[idx]).max()
+                    hits = [k for k, v in cands.items() if np.abs(v - fr[idx]).max() <= tolf]
+                    if not all(np.abs(cands[a_] - cands[b_]).max() > 100 * tolf for a_ in cands for b_ in cands if a_ < b_):
+                        raise tlcmod.MachineryError("switch table: candidate spectra coincide (vacuous cell)")
+                    add("band", qlen, "given", "above", "%.0e" % plen, hits[0] if len(hits) == 1 else "other")
+                    ctx.count(("switch", c["id"], method, "band", qlen, plen))
     obs_tla = "{" + ", ".join(to_tla({k: v for k, v in o.items() if k != "cfg"}) for o in observed) + "}"
     mc = "---- MODULE MC_NACSwitch ----\nEXTENDS NACSwitch\nMCObserved == %s\n====\n" % obs_tla
     res = ctx.tlc("MC_NACSwitch", cfg_text=CFG_SWITCH, extra_files={"MC_NACSwitch.tla": mc}, requirement=False,
                   extra_args=("-continue",), workers=1, coverage=not ctx.quick)
     ctx.extra["switch_observations"] = len(observed)
     require_actions_fired(ctx, res, "NACSwitch", ["Caller", "DMRun", "Kernel"])
+
+    def required(o):
+        eff = o["dir"] == "given" and o["dlen"] == "above"
+        return ("Kdir" if eff else "plain") if o["qlen"] == "zero" else "Kq"
     for nm in sorted(set(n for n, _ in res.violations)):
         if nm == "ObservedComplete":
             raise tlcmod.MachineryError("switch table: not every cell was observed")
-        badobs = [o for o in observed
-                  if o["outcome"] != ("Kq" if not o["qZero"] else ("Kdir" if o["dir"] == "given" else "plain"))]
-        ctx.violation("nacswitch:" + nm, "zone-centre switch: %s fails" % nm,
-                      dict(invariant=nm, offending_observations=badobs[:8]))
+        badobs = [o for o in observed if o["outcome"] != required(o)]
+        ctx.violation("nacswitch:" + nm, "zone-centre switch: %s fails (a direction longer than Q_DIRECTION_TOLERANCE "
+                      "= %g 1/Angstrom selects the direction-dependent term whatever its length; a tiny non-zero q is "
+                      "corrected)" % (nm, tol), dict(invariant=nm, offending_observations=badobs[:12]))
     ctx.traces += len(observed)
 
 
